@@ -278,3 +278,33 @@ M("c17-nonpositive-kept", "C17", "cola/libcola/colafd.cpp",
 M("c17-heap-compare-link", "C17", "cola/libvpsc/pairing_heap.h",
   "\tif( lessThan(second->element,first->element) )\n\t{\n\t\t// Attach first as leftmost child of second", "\tif( !lessThan(first->element,second->element) && first->leftChild == nullptr )\n\t{\n\t\t// Attach first as leftmost child of second",
   mention=["APSP-EXACT"], tu=["cola/libcola/colafd.cpp"])
+
+# ---------------------------------------------------------------- C11
+M("c11-exclusive-ignored", "C11", "cola/libavoid/connend.cpp",
+  "        if ((currPin->m_class_id == m_connection_pin_class_id) && \n                (!currPin->m_exclusive || currPin->m_connend_users.empty()))\n        {\n            double routingCost",
+  "        if ((currPin->m_class_id == m_connection_pin_class_id) && \n                (!currPin->m_exclusive || currPin->m_connend_users.empty() || (m_type == ConnEndJunction)))\n        {\n            double routingCost",
+  mention=["PIN-OFFER"])
+M("c11-users-not-erased", "C11", "cola/libavoid/connend.cpp",
+  "    if (m_active_pin)\n    {\n        m_active_pin->m_connend_users.erase(this);\n    }\n    m_active_pin = nullptr;",
+  "    if (m_active_pin && !m_active_pin->m_exclusive)\n    {\n        m_active_pin->m_connend_users.erase(this);\n        m_active_pin = nullptr;\n    }",
+  mention=["PIN-BOOKKEEPING"])
+M("c11-temp-vis-early-return", "C11", "cola/libavoid/connector.cpp",
+  "    std::vector<Point> path;\n    std::vector<VertInf *> vertices;\n    if (m_checkpoints.empty())",
+  "    std::vector<Point> path;\n    std::vector<VertInf *> vertices;\n    if (m_src_vert->point == m_dst_vert->point) return false;\n    if (m_checkpoints.empty())",
+  mention=["PIN-TEMP-VIS"])
+M("c11-checkpoint-dirs-not-restored", "C11", "cola/libavoid/connector.cpp",
+  "        if ((i + 1) < checkpoints.size())\n        {\n            end->setVisibleDirections(ConnDirAll);\n        }",
+  "        if ((i + 2) < checkpoints.size())\n        {\n            end->setVisibleDirections(ConnDirAll);\n        }", mention=["CHECKPOINT-DIRS", "end"])
+M("c11-pins-not-moved", "C11", "cola/libavoid/obstacle.cpp",
+  "        ShapeConnectionPin *pin = *curr;\n        pin->updatePosition(m_polygon);", "        ShapeConnectionPin *pin = *curr;\n        if (pin->isExclusive()) pin->updatePosition(m_polygon);",
+  mention=["PINS-FOLLOW-SHAPES", "setNewPoly"])
+M("c11-pin-position-right", "C11", "cola/libavoid/connectionpin.cpp",
+  "            point.x = shapeBox.max.x - m_inside_offset;\n            point.vn = 4;\n        }\n        else\n        {\n            point.x = shapeBox.min.x + (m_x_offset * shapeBox.width());",
+  "            point.x = shapeBox.max.x + m_inside_offset;\n            point.vn = 4;\n        }\n        else\n        {\n            point.x = shapeBox.min.x + (m_x_offset * shapeBox.width());",
+  mention=["PIN-POSITION", "proportional"])
+M("c11-pin-position-yheight", "C11", "cola/libavoid/connectionpin.cpp",
+  "            point.y = shapeBox.min.y + (m_y_offset * shapeBox.height());", "            point.y = shapeBox.min.y + (m_y_offset * shapeBox.width());",
+  mention=["PIN-POSITION"])
+M("c11-pin-dirs-swapped", "C11", "cola/libavoid/connectionpin.cpp",
+  "        if (m_y_offset == ATTACH_POS_TOP)\n        {\n            visDir |= ConnDirUp;", "        if (m_y_offset == ATTACH_POS_TOP)\n        {\n            visDir |= ConnDirDown;",
+  mention=["PIN-DIRECTIONS"])
